@@ -181,6 +181,10 @@ class PB(ExprBuilder):
         # x[m, :] = x[m]
         while idx[0] == 'tuple' and len(idx[1]) > 1 and idx[1][-1] == ('call', 'slice', (('sym', 'None'),) * 3):
             idx = ('tuple', idx[1][:-1]) if len(idx[1]) > 2 else idx[1][0]
+        # [f(k) for k in range(n)][j] with j itself running over range(n): the element is f(j)
+        if isinstance(base, tuple) and base[0] == 'call' and base[1] == 'map' and len(base[2]) == 2 and idx == ('call', 'elem', (base[2][1],)) and \
+                base[2][1][0] == 'call' and base[2][1][1] in ('py.range', 'arange') and len(base[2][1][2]) == 1:
+            return base[2][0]
         return ('call', 'getitem', (base, idx))
 
     def _index(self, sl, env):
